@@ -172,6 +172,7 @@ inline bool applyDev(Shape& sh, const std::string& dev) {   // returns false if 
     if (dev == "ch_renamed") { if (sh.chans.empty() || sh.nsub == 0) return false; sh.chans.back() = "z"; return true; }
     if (dev == "sub_missing") { if (sh.nsub == 0) return false; sh.nsub--; return true; }
     if (dev == "sub_extra") { if (sh.chans.empty()) return false; sh.nsub++; return true; }
+    if (dev == "sub_ragged") { if (sh.chans.empty() || sh.nsub < 2) return false; sh.raggedLast = true; return true; }   // first sub-frame as declared, the last one with an extra channel
     if (dev == "an_none") { if (sh.nsub == 0) return false; sh.nsub = 0; sh.chans.clear(); return true; }
     if (dev == "empty") { if (sh.pts.empty() && sh.nsub == 0) return false; sh.pts.clear(); sh.chans.clear(); sh.nsub = 0; return true; }
     return false;
@@ -201,6 +202,7 @@ inline Op opFrame(const std::string& dev, const std::string& tgt, int vs, const 
         if (dev == "addanalogs" && (pFloat(s.o, "ANALOG", "RATE") == 0.0f || pInt(s.o, "ANALOG", "USED") != 0)) return false;
         if (L.documentedDevsOnly && dev.compare(0, 3, "pt_") == 0 && pInt(s.o, "POINT", "USED") <= 0) return false;
         if (L.documentedDevsOnly && dev.compare(0, 3, "ch_") == 0 && pInt(s.o, "ANALOG", "USED") <= 0) return false;
+        if (L.documentedDevsOnly && dev.compare(0, 4, "sub_") == 0 && !(s.o.frames.size() == 1 && tgt == "0")) return false;   // a different sub-frame count only as the replacement of the single stored frame: the data set stays uniform
         return applyDev(sh, dev);
     };
     o.apply = [dev, tgt, vs](World& w, const WSnap& s, CallInfo& ci) {
@@ -349,6 +351,15 @@ inline Op opRegSubmit(int r, const std::string& tgt, const Limits& L) {
     o.apply = [r, tgt](World& w, const WSnap& s, CallInfo& ci) {
         ci.kind = K_FRAME; ci.reg = r; ci.dev = "reg"; targetIdx(tgt, s.o.frames.size(), ci.append, ci.idx); ci.given = snapFrame(w.R[r]);
         if (ci.append) w.c->frame(w.R[r]); else w.c->frame(w.R[r], ci.idx);
+    };
+    return o;
+}
+// the caller hands over a TEMPORARY made from its frame (frame(Frame(R)), a helper returning its working frame by value): the copy shares R's points and analogs
+inline Op opRegSubmitTemp(int r, const std::string& tgt, const Limits& L) {
+    Op o = opRegSubmit(r, tgt, L); o.name = "frame(Frame(R" + std::to_string(r) + ")," + tgt + ")";
+    o.apply = [r, tgt](World& w, const WSnap& s, CallInfo& ci) {
+        ci.kind = K_FRAME; ci.reg = r; ci.dev = "reg-temporary"; targetIdx(tgt, s.o.frames.size(), ci.append, ci.idx); ci.given = snapFrame(w.R[r]);
+        if (ci.append) w.c->frame(Frame(w.R[r])); else w.c->frame(Frame(w.R[r]), ci.idx);
     };
     return o;
 }
